@@ -323,22 +323,11 @@ example : rankOk [leaf .empty, leaf (.many 0 none false)] id = true ∧
 
 end Example
 
-/-! ### not proved: recursive grammars
+/-! ### recursive grammars
 
-The intended generalisation (NOT proved here; nothing below depends on it):
-
-  `recursive_terminates` — let `r : Nat → Nat` be a rank such that every reference of a node that can be entered WITHOUT
-  prior consumption (the operands of an `And` up to and including the first one that `consumes`, every alternative of
-  `MatchFirst` / `Or`, the child of a wrapper / lookahead / `Opt` / repetition, a `Forward`'s target, ignorables, stop_on /
-  fail_on / ignorer) goes to a smaller rank, while the operands of an `And` after a consuming operand may go anywhere
-  (`leftRankOk g r k`, decidable).  Then under `Advancing g s`, for every `id < g.length` and `loc`,
-  `parse g s fuel id loc a c ≠ .hang` whenever `fuel ≥ (s.length + 2 - min loc (s.length + 1)) * (R + 1) + r id + 1`
-  (`R` = the largest rank): induction on the measure (remaining input, rank), lexicographically.
-
-What is missing: every `…_nohang` lemma of Lemmas/ParseTerm.lean asks `NH p e` — no hang at ANY location — of the nested
-calls, whereas the lexicographic induction only supplies it at locations `≥ loc` (smaller rank) resp. `> loc` (after a
-consuming operand).  The helpers do call `p` only at locations `≥` their own (`Adv`, `…_ge`), so the family ports to
-`NHge p e L := ∀ loc ≥ L, …` mechanically, plus one sharper lemma for `andRest` (after a `consumes` operand the rest needs
-`NHge … (loc+1)` only); that port (≈25 lemmas) and the fuel arithmetic are not done. -/
+Tables with `Forward` cycles fail `rankOk` / `depthOk`.  The generalisation to cycles that pass through a consuming `And`
+operand — measure (remaining input, rank), explicit fuel bound `(len + 1 - loc)·(R + 1) + r id + 1` — is
+`recursive_terminates_partial` in `PPProofs/Props/C06Rec.lean` (location-restricted lemma family
+`PPProofs/Lemmas/ParseTermRec.lean`); partial: tables containing `SkipTo` are not covered there. -/
 
 end PP.Parse
